@@ -133,10 +133,13 @@ def _store_ref_block_max_length(path):
 def _realize(s):
     """The fake filesystem holds plain strings: a CrossHair symbolic string (json renders a symbolic int as a
     lazy symbolic str) is made concrete here, exactly as a real file write would (forks one path per value)."""
-    if type(s) is str:
-        return s
     from crosshair.core import realize
-    return realize(s)
+    from crosshair.tracers import NoTracing, is_tracing
+    if not is_tracing():
+        return s
+    with NoTracing():
+        concrete = type(s) is str
+    return s if concrete else realize(s)
 
 
 class _Writer:
